@@ -1212,6 +1212,28 @@ func c07truncates(c *core.Check) {
 //      loop one past the end; a later S[..:i] / S[i] must be preceded by a clamp or test of i against len(S);
 //  (c) nil-phi-deref (go/ssa): a pointer that is nil on some incoming edge of a φ is not dereferenced (field access or
 //      call of a method that reads its receiver) unless a nil test dominates the use.
+// guardCondsOf lists the conditions of the if statements whose then-branch encloses target.
+func guardCondsOf(fd *ast.FuncDecl, target ast.Node) []ast.Expr {
+	var gs []ast.Expr
+	var stack []ast.Node
+	ast.Inspect(fd.Body, func(n ast.Node) bool {
+		if n == nil {
+			stack = stack[:len(stack)-1]
+			return true
+		}
+		stack = append(stack, n)
+		if n == target {
+			for _, p := range stack {
+				if is, ok := p.(*ast.IfStmt); ok && is.Body.Pos() <= target.Pos() && target.End() <= is.Body.End() {
+					gs = append(gs, is.Cond)
+				}
+			}
+		}
+		return true
+	})
+	return gs
+}
+
 func c14runtimePanics(c *core.Check) {
 	prog := c.Prog
 	pk := prog.Pkg(fmRel)
@@ -1280,6 +1302,39 @@ func c14runtimePanics(c *core.Check) {
 					}
 					if strings.Contains(g, idx+"<=") || strings.Contains(g, idx+"<") {
 						upper = true
+					}
+				}
+				// a plain integer variable as index: the enclosing guards are closed predicates over it, so they are evaluated
+				// for every value in [-70000,70000] and at the extremes of the type; where they all hold the index must lie
+				// inside the array (guards that mention anything else are ignored, which only weakens the premise)
+				if id, ok := ast.Unparen(ix.Index).(*ast.Ident); ok {
+					if bits, sgn, ok := basicInt(b.Name()); ok {
+						alen := t.Underlying().(*types.Array).Len()
+						conds := guardCondsOf(fd, ix)
+						vals := []int64{-1 << 62, -1 << 31, -1<<31 - 1, 1<<31 - 1, 1 << 31, 1<<62 - 1}
+						for v := int64(-70000); v <= 70000; v++ {
+							vals = append(vals, v)
+						}
+						evalOK, witness := true, ""
+						for _, v := range vals {
+							w := wrap(v, bits, sgn)
+							holds := true
+							for _, g := range conds {
+								r, err := evalCond(info, g, map[string]tint{id.Name: {v: w, bits: bits, signed: sgn}})
+								if err == nil && !r {
+									holds = false
+									break
+								}
+							}
+							if holds && (w < 0 || w >= alen) {
+								evalOK, witness = false, fmt.Sprint(w)
+								break
+							}
+						}
+						lower, upper = evalOK, evalOK
+						if !evalOK {
+							idx += " (e.g. " + witness + " passes every enclosing guard; array length " + fmt.Sprint(alen) + ")"
+						}
 					}
 				}
 				c.Decide(lower && upper, "array-index-bounded", fmt.Sprintf("%s/%s#%d", fk, rules.ExprString(ix), perA), prog.Rel(ix.Pos()),
